@@ -22,6 +22,7 @@ var repoPkgs = []string{
 	"github.com/pkg/sftp",
 	"github.com/pkg/sftp/internal/encoding/ssh/filexfer",
 	"github.com/pkg/sftp/internal/encoding/ssh/filexfer/openssh",
+	"github.com/pkg/sftp/server_standalone",
 }
 
 type escField struct {
@@ -675,6 +676,7 @@ func (e *Engine) contractFiles() [][2]string {
 		{"sshfx", filepath.Join(e.repo, "internal/encoding/ssh/filexfer/verif_contracts.go")},
 		{"sshfx", filepath.Join(e.repo, "internal/encoding/ssh/filexfer/verif_contracts_c06.go")},
 		{"openssh", filepath.Join(e.repo, "internal/encoding/ssh/filexfer/openssh/verif_contracts.go")},
+		{"main", filepath.Join(e.repo, "server_standalone/verif_contracts.go")},
 	}
 }
 
